@@ -3,16 +3,21 @@
 From Apko Require Import Base.Prelude Model.Cache Spec.CacheSpec Proofs.CacheProofs Generated.C19Cache.
 Open Scope string_scope. Open Scope list_scope.
 
-(* For every origin, every NUMBER of builders, each running the index or the
-   package population protocol with any parameters (any directories, etags,
-   package contents in any chunking — several may fetch the same key), and
-   every schedule — any interleaving of their atomic steps, each builder
-   stopped (killed) after any number of its steps, builders starting at any
-   time: in the reached state every advertised name that exists resolves to a
-   complete file holding exactly the origin's bytes for its key.  Unbounded:
-   induction over the schedule with an invariant over [fold_left step]. *)
+(* For every origin, every NUMBER of builders, each running the index
+   population protocol, the package population protocol (ending with
+   cachePackage's PackageData call) or a reader whose cachedPackage has to
+   rebuild <hash>.dat.tar (PackageData: temporary file + rename, fix 90139a3),
+   with any parameters (any directories, etags, package contents in any
+   chunking — several may work on the same key), and every schedule — any
+   interleaving of their atomic steps, each builder stopped (killed) after any
+   number of its steps, builders starting at any time: in the reached state
+   every advertised name that exists — .ctl/.sig/.dat.tar.gz/.dat.tar, index and
+   .etag names alike — resolves to a complete file holding exactly the origin's
+   bytes for its key.  Unbounded: induction over the schedule with an invariant
+   over [fold_left step].  No writer under a final name is left in the code,
+   so no builder kind is excluded any more. *)
 Theorem c19_invariant : forall origin gunzip (bs : list builder) (sched : list nat),
-  builders_ok origin bs -> (forall b, In b bs -> is_reader b = false) ->
+  origin_gunzip origin gunzip -> builders_ok origin bs ->
   CacheSound origin (dsk (run gunzip (init (progs origin bs)) sched)).
 Proof. exact population_sound. Qed.
 Print Assumptions c19_invariant.
@@ -64,37 +69,37 @@ Theorem c19_offline_partial : forall origin d e c b,
 Proof. exact read_offline_sound. Qed.
 Print Assumptions c19_offline_partial.
 
-(* The in-place rebuild of <hash>.dat.tar (PackageData, reached from
-   cachedPackage when control and data sections are advertised and the tar is
-   not) breaks both statements above.  Full statement (candidate): c19_invariant
-   with readers among the builders.  REFUTED (finding C19-F1): a builder killed
-   between advertising .dat.tar.gz and .dat.tar, then a build killed inside the
-   rebuild, leave a partial regular file under the final name; a later complete
-   download is discarded by AdvertiseCachedFile (destination exists) and every
-   later lookup is a HIT on the partial tar. *)
-Theorem c19_tarfile_rebuild_refuted : exists origin gunzip datahash_of (bs : list builder) sched dir ctlh m,
-  builders_ok origin bs /\
-  let d := dsk (run gunzip (init (progs origin bs)) sched) in
-  ~ CacheSound origin d /\
-  read_package datahash_of d dir ctlh = Hit m /\
-  m_tar m <> origin (PMember dir MTar (datahash_of (m_ctl m))).
-Proof.
-  exists w_origin, w_gunzip, w_dh, w_bs, w_sched, "p", "c".
-  destruct rebuild_breaks_cache as (A & m & B & _ & C & _).
-  exists m. split; [exact w_bs_ok|]. split; [exact A|]. split; [exact B|exact C].
-Qed.
-Print Assumptions c19_tarfile_rebuild_refuted.
+(* The rebuild of <hash>.dat.tar (PackageData, reached from cachedPackage when
+   control and data sections are advertised and the tar is not — a builder
+   killed between the 3rd and 4th AdvertiseCachedFile).  Until fix 90139a3 it
+   wrote IN PLACE under the final name and refuted both statements above
+   (findings C19-F1 / C19-F1b, now `fixed:`); the scenarios that exposed it stay
+   in the harness corpus.  Concrete instances of c19_invariant for it: a reader
+   killed inside the rebuild leaves only a temporary file and the name is
+   published by a later download; a reader that finishes publishes a complete
+   regular file; every lookup is a hit with the origin's tar. *)
+Theorem c19_tarfile_rebuild :
+  builders_ok w_origin w_bs /\ origin_gunzip w_origin w_gunzip /\
+  read_package w_dh w_disk "p" "c" = w_hit /\
+  w_disk (PTmpFile "p" 1) = Some (File ["t1"] false) /\
+  w_disk (PMember "p" MTar "d") = Some (Link (PTmpMem "p" 2 MTar)) /\
+  read_package w_dh w_disk2 "p" "c" = w_hit /\
+  w_disk2 (PMember "p" MTar "d") = Some (File ["t1"; "t2"] true) /\
+  w_disk2 (PTmpFile "p" 1) = None.
+Proof. split; [exact w_bs_ok|]. split; [exact w_gunzip_ok|]. exact rebuild_examples. Qed.
+Print Assumptions c19_tarfile_rebuild.
 
 (* The order of the durable file-system calls that goextract reads from the
    source on this run is the order of the model's steps: download to a
    temporary name, copy, THEN advertise (retrieveAndSaveFile); stat, then remove
    the own copy or symlink (AdvertiseCachedFile); control, signature, data, tar
-   (cachePackage); and PackageData creates the FINAL name and copies into it. *)
+   (cachePackage); and PackageData creates a TEMPORARY file, copies into it and
+   renames it to the final name (os.Remove calls are its error paths). *)
 Theorem c19_code_order :
   (forall o d e c1 c2, index_calls (populate_index o d e [c1; c2]) false = retrieve_calls) /\
   advertise_call_names = advertise_calls /\
   (forall o d a s, a_sig a = Some s -> cache_package_call_names (pkg_advs o d a) = cache_package_calls) /\
-  package_data_call_names = package_data_calls /\
+  package_data_call_names = List.filter not_remove package_data_calls /\
   retrieve_literals = ["os.CreateTemp:*.tmp"] /\ expand_literals = ["os.MkdirTemp:expand-apk"].
 Proof.
   split; [intros; reflexivity|]. split; [reflexivity|].
